@@ -184,7 +184,9 @@ pub(super) mod udp {
         type Error = anyhow::Error;
 
         fn encode(&mut self, (content, addr): DatagramPacket, dst: &mut BytesMut) -> anyhow::Result<()> {
-            self.session.increase_packet_id();
+            if self.session.increase_packet_id().is_none() {
+                bail!("[udp] packet id exhausted; session={}", self.session)
+            }
             self.codec.encode((content, addr, self.session.clone()), dst)
         }
     }
